@@ -27,6 +27,12 @@ static ABTI_ythread T;
 static int cb_calls; static void *cb_arg_seen; static ABT_thread cb_thread_seen;
 static void mig_cb(ABT_thread t, void *a) { cb_calls++; cb_arg_seen = a; cb_thread_seen = t; }
 static int req_before_pool;
+#if MODE == 1
+#include <errno.h>
+/* the snapshot array of ABT_thread_migrate: its allocation may fail (symbolic) */
+static int alloc_fail, alloc_failed;
+int posix_memalign(void **p, size_t al, size_t sz) { if (alloc_fail) { alloc_failed = 1; return ENOMEM; } void *q = malloc(sz); __CPROVER_assume(q != NULL); *p = q; return 0; }
+#endif
 /* user-defined target pool (MODE 2): unit creation and the unit map may fail (their own behaviour is C14's subject) */
 static int units_made, units_freed, map_fail; static ABTI_ythread UNITOBJ;
 static ABT_unit up_create_unit(ABT_pool p, ABT_thread t) { if (nondet_bool()) return ABT_UNIT_NULL; units_made++; return (ABT_unit)&UNITOBJ; }
@@ -92,12 +98,16 @@ int main(void)
     /* the request may be issued by the unit itself (running on X0), by a ULT of another stream, or by an external thread */
     { int who = nondet_int(); VR_ASSUME(who >= 0 && who <= 3); lp_ABTI_local = who == 0 ? (ABTI_local *)&X0 : who == 1 ? (ABTI_local *)&X1 : who == 2 ? (ABTI_local *)&X2 : NULL;
       X0.p_thread = &T.thread; static ABTI_ythread C1, C2; C1.thread.type = C2.thread.type = ABTI_THREAD_TYPE_THREAD | ABTI_THREAD_TYPE_YIELDABLE; X1.p_thread = &C1.thread; X2.p_thread = &C2.thread; }
+    alloc_fail = nondet_bool();
     int r = ABT_thread_migrate((ABT_thread)&T);
     /* a stream is a usable destination if it is another RUNNING stream that does not already serve the unit's pool
      * (its scheduler then offers a different pool).  Streams that share the unit's current pool are no move at all. */
     int serves1 = (a1 == 0) || (n1 == 2 && b1 == 0), serves2 = (a2 == 0) || (n2 == 2 && b2 == 0);
     int ok1 = X1.state.val == ABT_XSTREAM_STATE_RUNNING && !serves1, ok2 = X2.state.val == ABT_XSTREAM_STATE_RUNNING && !serves2;
-    if (ok1 || ok2) {
+    if (alloc_failed) {
+        VR_ASSERT(r == ABT_ERR_MEM && T.thread.request.val == 0, "failed allocation of the stream snapshot: ABT_ERR_MEM, nothing requested (C18)");
+        VR_WITNESS("allocation failure inside ABT_thread_migrate");
+    } else if (ok1 || ok2) {
         VR_ASSERT(r == ABT_SUCCESS, "ABT_thread_migrate picks some other running execution stream when one exists");
         void *tp = MIG.p_migration_pool.val;
         VR_ASSERT((T.thread.request.val & ABTI_THREAD_REQ_MIGRATE) && tp != (void *)&P0 && ((ok1 && tp == (void *)pool_of(a1)) || (ok2 && tp == (void *)pool_of(a2))), "the requested pool belongs to such a stream's main scheduler and differs from the current pool");
@@ -106,7 +116,7 @@ int main(void)
         VR_ASSERT(r == ABT_ERR_MIGRATION_NA && T.thread.request.val == 0, "no other running stream: ABT_ERR_MIGRATION_NA, nothing requested");
         VR_WITNESS("no candidate");
     }
-    VR_ASSERT(G.xstream_list_lock.val.val == 0, "stream list lock released");
+    VR_ASSERT(G.xstream_list_lock.val.val == 0, "stream list lock released on every path, also when the allocation failed (otherwise every later create/free/migrate spins forever)");
 #else
     int k = nondet_int(); VR_ASSUME(k >= 1 && k <= 3);
     int user_target = nondet_bool();
